@@ -80,6 +80,7 @@ fn cfg(tier: Tier) -> ProgCfg {
             foreign: 1,
             two_writers: 2,
             switch_cache: 0,
+            cancel_commit: 0,
         },
         wmix: WriteMix { bad_decls: true, meta: true, by_hash: true, rich_matching: true, interfere: true },
         sizes: SizeMix::Boundary,
